@@ -2281,6 +2281,17 @@ fn generate_constraints_stmt(
                                     .to_string(),
                             node: lhs.node(),
                         })
+                    } else if let Some(scope) = ctx.capture_scope_stack.last()
+                        && !(scope.file_id == node.location().file_id
+                            && scope.lo <= node.location().lo
+                            && node.location().hi <= scope.hi)
+                    {
+                        // declared outside the innermost enclosing lambda or task: that body
+                        // works on its own copy of the variable
+                        ctx.errors.push(Error::GenericWithNode {
+                            msg: "Captured variables cannot be reassigned".to_string(),
+                            node: lhs.node(),
+                        })
                     }
                 } else {
                     ctx.errors.push(Error::GenericWithNode {
@@ -2761,7 +2772,9 @@ fn generate_constraints_expr(
         ExprKind::TaskBlock(block) => {
             // a task runs on its own: it cannot break out of a loop around the `task` expression
             ctx.loop_stack.push(None);
+            ctx.capture_scope_stack.push(expr.loc.clone());
             generate_constraints_expr(ctx, polyvar_scope, Mode::Syn, block);
+            ctx.capture_scope_stack.pop();
             ctx.loop_stack.pop();
             constrain(
                 ctx,
@@ -3684,6 +3697,11 @@ fn generate_constraints_func_def_helper(
     ctx.func_ret_stack.push(Prov::FuncOut(node.clone()));
     // a loop around the function definition does not enclose the function's body
     ctx.loop_stack.push(None);
+    // from the function's name (or the lambda's first token) to the end of its body
+    let mut scope = node.location().clone();
+    scope.lo = scope.lo.min(body.loc.lo);
+    scope.hi = scope.hi.max(body.loc.hi);
+    ctx.capture_scope_stack.push(scope);
     let ty_body = TypeVar::fresh(ctx, Prov::FuncOut(node.clone()));
     if let Some(out_annot) = out_annot {
         let out_annot = out_annot.to_typevar(ctx);
@@ -3694,6 +3712,7 @@ fn generate_constraints_func_def_helper(
     } else {
         generate_constraints_expr(ctx, &polyvar_scope, Mode::ana(&ty_body), body);
     }
+    ctx.capture_scope_stack.pop();
     ctx.loop_stack.pop();
     ctx.func_ret_stack.pop();
 
